@@ -9,7 +9,7 @@ from harness.common import f2hex, hex2f, run_driver, lean_obligations
 MODULE = 'Ndt.Props.C08'
 THEOREMS = ['Ndt.flat_gather', 'Ndt.column_of_column', 'Ndt.bestEstimate_lengths', 'Ndt.bestEstimate_columnwise',
             'Ndt.chosenRow_single', 'Ndt.bestEstimate_depends_on_column', 'Ndt.chosenRow_valid', 'Ndt.wynnTable_cell',
-            'Ndt.args_forwarded', 'Ndt.argMinRow_spec', 'Ndt.outlierErrors_nonneg']
+            'Ndt.args_forwarded', 'Ndt.argMinRow_spec', 'Ndt.outlierErrors_nonneg', 'Ndt.argMinRow_skips_nan', 'Ndt.bestEstimate_err_not_nan']
 EPS = 2.0 ** -52
 TINY = 2.0 ** -1022
 METHODS = ['central', 'forward', 'backward', 'complex', 'multicomplex']
